@@ -127,9 +127,10 @@ PROPS["C03"] = dict(
 PROPS["C09"] = dict(
     title="Range reads are sorted, bounded, truthful about 'more', and page losslessly",
     design_ref="DESIGN.md section 7 (C09)",
-    run_files=["Run/FsmRun.v"],
-    engines=[dict(cmd=["c09"], corr="Model.Cmd.iterate/lookup/iterator_lookup <-> fsm.iterate, rangeLookup, singleLookup, iteratorLookup")],
-    level_text="Theorems for all pair lists, limits and modes, generic in the pair representation: lossless paging, exact counts, 'more' exactly when pairs remain, variants agree, message size bounded by threshold + largest pair + 48 (below the 4 MiB transport limit for the code's constants, re-checked from regenerated constants); exhaustive (table size x limit x mode x bounds) grid and megabyte size-cut layouts on the real FSM compared with the model, plus Go-side oracles of each clause; the layers above the state machine (table.ActiveTable.Range, KVServer.Range, KVServer.IterateRange) must hand the state machine's pairs, count and 'more' through unchanged, in one message and in several.",
+    run_files=["Run/FsmRun.v", "Run/ApiRun.v"],
+    engines=[dict(cmd=["api"], corr="Model.Api.{impl_step: validators of Model.Validate + table lookup + request->Command + CommandResult->response over Model.Fsm.Update/f_lookup} <-> regattaserver.KVServer.{Range,IterateRange,Put,DeleteRange,Txn} over storage.Engine (real NodeHost) -> table.ActiveTable -> fsm.FSM", timeout=900),
+             dict(cmd=["c09"], corr="Model.Cmd.iterate/lookup/iterator_lookup <-> fsm.iterate, rangeLookup, singleLookup, iteratorLookup")],
+    level_text="Theorems for all pair lists, limits and modes, generic in the pair representation: lossless paging, exact counts, 'more' exactly when pairs remain, variants agree, message size bounded by threshold + largest pair + 48 (below the 4 MiB transport limit for the code's constants, re-checked from regenerated constants); exhaustive (table size x limit x mode x bounds) grid and megabyte size-cut layouts on the real FSM compared with the model, plus Go-side oracles of each clause; the layers above the state machine (table.ActiveTable.Range, KVServer.Range, KVServer.IterateRange) must hand the state machine's pairs, count and 'more' through unchanged, in one message and in several. API level (C09_api_range_is_the_state_machines_answer): what KV.Range / KV.IterateRange hand to the client for an accepted request IS the state machine's answer (one message / all messages) and the request changes nothing; engine 'api' compares unary and streamed reads (also cut by limits) through the real KVServer over a real Engine with the model.",
     level_note="Trusts: Coq kernel; genconst (maxRangeSize, MaxValueLen, key length, transport limit); ProtoSize model of SizeVT (compared through the cut positions on megabyte tables); correspondence run.",
     technique="Coq proof (induction over the chunking loop with accumulators, arithmetic on varint sizes) + exhaustive-grid differential correspondence check against fsm.FSM",
     trusted=_FSM_TRUSTED, label=fsm_label,
